@@ -47,19 +47,22 @@ def _kernel_quad(x1, x2, c, **kw):
     return c[..., None, None] * (x1 @ x2.mT + 1.0) ** 2
 
 
-def build(term, dtype, leaves=None, requires_grad=False):
+def build(term, dtype, leaves=None, requires_grad=False, path=(), leafmap=None):
     """Construct the real operator for a spec term. `leaves` (list) collects the floating leaf tensors in
-    construction order (used by the mutation-freedom monitor and the gradient checks)."""
+    construction order (used by the mutation-freedom monitor and the gradient checks).  `leafmap` (dict) maps (path of child
+    indices, index into ts) -> floating leaf tensor; `requires_grad` may be a bool or a set of such keys."""
     if isinstance(dtype, str):
         dtype = DT[dtype]
     cls, ops, ts, ks = term["cls"], term["ops"], term["ts"], term["ks"]
 
     def F(i):
         t = tensor(ts[i], dtype)
-        if requires_grad:
+        if requires_grad is True or (isinstance(requires_grad, (set, frozenset)) and (path, i) in requires_grad):
             t.requires_grad_(True)
         if leaves is not None:
             leaves.append(t)
+        if leafmap is not None:
+            leafmap[(path, i)] = t
         return t
 
     def L(i):
@@ -75,10 +78,10 @@ def build(term, dtype, leaves=None, requires_grad=False):
         return t
 
     def S(i):
-        return build(ops[i], dtype, leaves, requires_grad)
+        return build(ops[i], dtype, leaves, requires_grad, path + (i,), leafmap)
 
     def Sall():
-        return [build(o, dtype, leaves, requires_grad) for o in ops]
+        return [build(o, dtype, leaves, requires_grad, path + (k,), leafmap) for k, o in enumerate(ops)]
 
     if cls == "Dense":
         return O.DenseLinearOperator(F(0))
